@@ -25,6 +25,8 @@ type Case struct {
 	Chosen []string      `json:"chosencases,omitempty"`
 	// EmptyChosen: the option is written, but as an empty list (chosencases: []) — no filter
 	EmptyChosen bool `json:"chosencases_empty_list,omitempty"`
+	// CloseFails: the ammo file reads fine, but closing it reports an error (harness filesystem)
+	CloseFails bool `json:"closing_the_ammo_file_fails,omitempty"`
 	Text   string        `json:"text,omitempty"`
 }
 
@@ -144,6 +146,15 @@ func runCase(res *vkit.Result, c Case) {
 	}
 	p1 := vkit.WriteMem(data)
 	p2 := vkit.WriteMem(data)
+	if c.CloseFails {
+		// the same bytes under a path whose files report an error when they are closed
+		vkit.RemoveMem(p1)
+		vkit.RemoveMem(p2)
+		p1, p2 = "/failclose"+p1, "/failclose"+p2
+		_ = vkit.WriteMemAt(p1, data)
+		_ = vkit.WriteMemAt(p2, data)
+		res.Count("pairs_with_failing_close", 1)
+	}
 	defer vkit.RemoveMem(p1)
 	defer vkit.RemoveMem(p2)
 	off := run(c, p1, false, max)
@@ -187,7 +198,7 @@ func runCase(res *vkit.Result, c Case) {
 	}
 	res.Count("pairs_"+sel, 1)
 	res.Count("ammo_compared", int64(len(off.items)))
-	res.Eval(c.Text+fmt.Sprint(c.Limit, c.Passes, c.Chosen, c.EmptyChosen), len(pass) >= 2)
+	res.Eval(c.Text+fmt.Sprint(c.Limit, c.Passes, c.Chosen, c.EmptyChosen, c.CloseFails), len(pass) >= 2)
 	if c.File.Layout.Seed%300 == 0 {
 		res.Sample(map[string]any{"format": c.File.Format, "limit": c.Limit, "passes": c.Passes, "chosencases": c.Chosen, "file_text": c.Text,
 			"delivered_stream": len(off.items), "delivered_preload": len(on.items), "end_stream": off.class, "end_preload": on.class})
@@ -269,6 +280,7 @@ func gen(rng *rand.Rand) Case {
 		}
 	}
 	c := Case{File: f, Limit: []int{0, 0, 1, 2, 3, 5, 9}[rng.Intn(7)], Passes: []int{0, 1, 1, 2, 3}[rng.Intn(5)]}
+	c.CloseFails = rng.Intn(12) == 0
 	switch rng.Intn(4) {
 	case 0:
 		c.EmptyChosen = rng.Intn(2) == 0
@@ -304,6 +316,8 @@ func seeds() []Case {
 		{File: mk([]string{"a"}), Limit: 0, Passes: 2},
 		{File: mk([]string{"", "b", "", "a"}), Limit: 5, Passes: 0, Chosen: []string{"", "b"}},
 		{File: mk([]string{"a", "", ""}), Limit: 0, Passes: 2, Chosen: []string{""}},
+		{File: mk([]string{"a", "b", "c", "d"}), Limit: 0, Passes: 1, CloseFails: true},
+		{File: mk([]string{"a", "b", "a"}), Limit: 3, Passes: 0, Chosen: []string{"a"}, CloseFails: true},
 		{File: mk([]string{"a", "b", "c", "a", "b"}), Limit: 3, Passes: 2, EmptyChosen: true},
 		{File: mk([]string{"a", "b", "c"}), Limit: 4, Passes: 0, EmptyChosen: true},
 	}
